@@ -204,6 +204,9 @@ pub fn generate(g: &mut Gen, thorough: bool) {
                     }
                 }
             };
+            // (Vincenty's iteration runs to its limit of 1000 rounds for every non-converging pair: 20000 tuples,
+            // evaluated as a set, one by one and permuted, do not fit the per-case time limit)
+            let n = if def.starts_with("geodesic") { n.min(1500) } else { n };
             // every pipeline once on a set beyond any likely internal batch size
             let n = if def.contains('|') && round == 1 { 1500 } else { n };
             let set = if def.starts_with("deformation") {
